@@ -143,6 +143,16 @@ def run(tier='quick', seed=0):
         repeated / nested occurrences of the bound variable"""
         pn, tn = rng.choice(['x', 'y', 'u']), rng.choice(['x', 'y', 'u'])
         k = rng.random()
+        if k < 0.2:
+            # a binder of function type whose variable occurs in the target only as the head of an application;
+            # the pattern has an atomic schematic variable (must not capture it) or a Miller pattern (may)
+            NN = TFun(N, N)
+            hh = Var('hh_', NN)
+            inner = rng.choice([hh(c0), hh(hh(c0)), g(hh(c0), c1), f(hh(x)), hh(gen_ground(1)), g(c0, hh(c1))])
+            sH = SVar('H', TFun(NN, N))
+            pat = Abs(pn, NN, rng.choice([sa, sa, g(sa, c1), f(sa), sH(Bound(0)), g(sH(Bound(0)), sa)]))
+            target = Abs(rng.choice(['h', 'x', tn]), NN, inner.abstract_over(hh))
+            return pat, target
         if k < 0.5:
             pat = Abs(pn, N, sF(Bound(0)))
             target = Abs(tn, N, gen_body(rng.choice([1, 2, 3])).abstract_over(zz))
@@ -155,7 +165,10 @@ def run(tier='quick', seed=0):
             pat = allT(Abs(pn, N, sP(Bound(0))))
             target = allT(Abs(tn, N, P(gen_body(2)).abstract_over(zz)))
         else:
-            pat = Abs(pn, N, Abs('v', N, sG(Bound(1), Bound(0))))
+            # two binders; the schematic head is applied to both bound variables, or to one of them only (then
+            # a target that mentions the other one has no match: the instantiation would let it escape)
+            pat = Abs(pn, N, Abs('v', N, rng.choice([sG(Bound(1), Bound(0)), sG(Bound(1), Bound(0)), sF(Bound(0)),
+                                                      sF(Bound(1)), g(sF(Bound(0)), sa), g(sF(Bound(0)), Bound(1))])))
             zz2 = Var('zz2_', N)
             b = g(gen_body(1), rng.choice([zz2, f(zz2), x])).abstract_over(zz2)
             target = Abs(tn, N, Abs(rng.choice(['v', 'x']), N, b).abstract_over(zz))
